@@ -11,6 +11,7 @@ use altrios_core::consist::locomotive::PowertrainType;
 use altrios_core::prelude::*;
 use altrios_core::track::{LinkIdx, PathResCoeff, PathTpc, TrainParams};
 use altrios_core::train::TrainState;
+use altrios_core::traits::SerdeAPI;
 use altrios_core::uc;
 use serde_json::{json, Value};
 use std::panic::AssertUnwindSafe;
@@ -39,6 +40,7 @@ pub fn sim_net_opts(rng: &mut Rng) -> NetOpts {
     o.max_restrictions = 4;
     o.v_min = if rng.chance(0.2) { 2.0 } else { 4.5 };
     o.p_cat = 0.15;
+    o.p_staircase = if rng.chance(0.4) { 0.5 } else { 0.0 };
     // a share of the networks has many links far shorter than one step of travel (several
     // boundaries crossed per step)
     if rng.chance(0.2) {
@@ -57,6 +59,52 @@ pub struct Built {
     pub route: Vec<LinkIdx>,
     pub route_len: f64,
     pub reverse: bool,
+}
+
+/// "phase scan" case: a heavy train holding line speed on a gentle downgrade approaches a slowdown (single
+/// step or staircase) whose position is varied metre by metre over one time step of travel, so that every
+/// phase between the train's discrete positions and the braking curve is exercised
+pub fn build_phase_case(rng: &mut Rng) -> Option<Built> {
+    use altrios_core::track::{Elev, Link, SpeedLimit, SpeedSet, TrainType};
+    let len = 20000.0;
+    let g2 = *rng.pick(&[0.0, -0.001, -0.002, 0.002]);
+    let elevs = vec![Elev::new(uc::M * 0.0, uc::M * 0.0), Elev::new(uc::M * 6500.0, uc::M * -26.0), Elev::new(uc::M * len, uc::M * (-26.0 + g2 * (len - 6500.0)))];
+    let s = 8000.0 + rng.range(0.0, 25.0);
+    let mut limits = vec![];
+    if rng.chance(0.4) {
+        limits.push(SpeedLimit { offset_start: uc::M * s, offset_end: uc::M * 12000.0, speed: uc::MPS * *rng.pick(&[4.0, 8.5, 12.0, 15.0]) });
+    } else {
+        let mut x = s;
+        let mut sp = *rng.pick(&[16.0, 17.9, 14.0]);
+        for _ in 0..rng.usize(2, 3) {
+            let w = rng.range(30.0, 120.0);
+            limits.push(SpeedLimit { offset_start: uc::M * x, offset_end: uc::M * (x + w), speed: uc::MPS * sp });
+            x += w;
+            sp = (sp - rng.range(3.0, 5.0)).max(5.0);
+        }
+        limits.push(SpeedLimit { offset_start: uc::M * x, offset_end: uc::M * 12000.0, speed: uc::MPS * (sp - rng.range(2.0, 8.0)).max(2.0) });
+    }
+    let set = SpeedSet { speed_limits: limits, speed_params: vec![], is_head_end: rng.chance(0.3) };
+    let mut link = Link { idx_curr: LinkIdx::new(1), length: uc::M * len, elevs, ..Default::default() };
+    link.speed_set = Some(set);
+    let links = vec![Link::default(), link];
+    if gn::validate(&links).is_err() {
+        return None;
+    }
+    let net = GenNet { links, gaps: vec![vec![1]], has_flips: false, train_types: vec![TrainType::Freight], flags: vec!["phase_scan"] };
+    // heavy train: loaded cars behind few locomotives (small dynamic-brake share)
+    let mut rv = altrios_core::prelude::RailVehicle::from_file("/repo/python/altrios/resources/rolling_stock/Manifest_Loaded.yaml").ok()?;
+    rv.speed_max = uc::MPS * 20.0;
+    let ncars = rng.usize(40, 110) as u32;
+    let mut n_by = std::collections::HashMap::new();
+    n_by.insert(rv.car_type.clone(), ncars);
+    let length = rv.length.value * ncars as f64;
+    let towed = (rv.mass_static_base.value + rv.mass_freight.value) * ncars as f64;
+    let config = TrainConfig::new(vec![rv], n_by, TrainType::Freight, None, None, None).ok()?;
+    let nl = rng.usize(1, 4);
+    let consist = Consist::new(vec![Locomotive::default(); nl], None, Default::default());
+    let spec = TrainSpec { config, consist, n_cars: ncars, length, towed_mass: towed, kinds: vec![crate::gen::powertrain::Kind::Conv; nl] };
+    Some(Built { net, spec, route: vec![LinkIdx::new(1)], route_len: len, reverse: false })
 }
 
 /// network + route + train that fits on the route
@@ -749,7 +797,11 @@ pub struct SltsOutcome {
 
 /// speed-limited run: C03, C07, C11, C12, C19
 pub fn speed_limit_run(ctx: &mut Ctx, rng: &mut Rng, interval: Option<usize>, ext: Extension) {
-    let b = match build_case(rng, 600.0) {
+    let phase = ctx.prop == "C03" && ext == Extension::Whole && rng.chance(0.35);
+    if phase {
+        ctx.count("obs.phase_scan_cases");
+    }
+    let b = match if phase { build_phase_case(rng) } else { build_case(rng, 600.0) } {
         Some(b) => b,
         None => {
             ctx.count("gen.no_case");
@@ -978,9 +1030,24 @@ pub fn speed_limit_run(ctx: &mut Ctx, rng: &mut Rng, interval: Option<usize>, ex
         let end = sim.offset_end().value;
         match &result {
             Err(p) => {
-                let kind = if p.message.contains("Speed limit violated") { "speed_limit_assert" } else { "other" };
+                // exact signature of the recorded finding: the train is inside a braking curve (target below the
+                // limit in force), decelerating, and overshoots the stepped curve by less than about one curve step
+                let parse = |key: &str| -> Option<f64> { p.message.split(key).nth(1).and_then(|r| r.trim_start_matches('=').split_whitespace().next()).and_then(|x| x.parse::<f64>().ok()) };
+                let over = match (parse("speed="), parse("speed_limit=")) {
+                    (Some(v), Some(l)) => v - l,
+                    _ => f64::INFINITY,
+                };
+                let tracking = rows.len() >= 2 && {
+                    let (r, q) = (&rows[rows.len() - 1], &rows[rows.len() - 2]);
+                    r.speed_target.value < r.speed_limit.value * (1.0 - 1e-9) && r.speed.value < q.speed.value && over <= 1.5
+                };
+                let kind = if p.message.contains("Speed limit violated") { if tracking { "speed_limit_assert:tracking_braking_curve" } else { "speed_limit_assert" } } else { "other" };
+                let xlast = rows.last().map(|r| r.offset.value).unwrap_or(0.0);
+                let bps = serde_json::to_value(&sim.braking_points).ok().and_then(|v| v.get("points").cloned()).and_then(|p| p.as_array().cloned()).unwrap_or_default();
+                let near: Vec<Value> = bps.into_iter().filter(|p| p.get("offset").and_then(|o| o.as_f64()).map(|o| (o - xlast).abs() < 250.0).unwrap_or(false)).collect();
+                let sp: Vec<Value> = sim.path_tpc.speed_points().iter().map(|s| json!([s.offset.value, s.speed_limit.value])).collect();
                 ctx.violate("no_panic", &format!("C03:panic:{kind}"), format!("[{what}] panic after {steps_done} steps: {} at {}", p.message.chars().take(200).collect::<String>(), p.location),
-                    json!({"last_rows": rows.iter().rev().take(3).map(row_json).collect::<Vec<_>>(), "case": case_json(&b)}));
+                    json!({"last_rows": rows.iter().rev().take(4).map(row_json).collect::<Vec<_>>(), "braking_points_near": near, "speed_points": sp, "case": case_json(&b)}));
             }
             Ok(Err(e)) => {
                 ctx.count("obs.run_ended_with_err");
@@ -1022,7 +1089,9 @@ pub fn speed_limit_run(ctx: &mut Ctx, rng: &mut Rng, interval: Option<usize>, ex
             if r.speed.value > posted * (1.0 + 1e-9) + 1e-9 {
                 let bps = serde_json::to_value(&sim.braking_points).ok().and_then(|v| v.get("points").cloned()).and_then(|p| p.as_array().cloned()).unwrap_or_default();
                 let near: Vec<Value> = bps.into_iter().filter(|p| p.get("offset").and_then(|o| o.as_f64()).map(|o| (o - r.offset.value).abs() < 400.0).unwrap_or(false)).collect();
-                ctx.violate("speed_le_posted", "C03:overspeed_vs_posted", format!("[{what}] step {k}: speed {} > posted limit {posted} at front position {}", r.speed.value, r.offset.value), json!({"row": row_json(r), "prev_row": row_json(&rows[k - 1]), "braking_points_near": near, "case": case_json(&b)}));
+                let q = &rows[k - 1];
+                let tracking = r.speed_target.value < r.speed_limit.value * (1.0 - 1e-9) && q.speed_target.value < q.speed_limit.value * (1.0 - 1e-9) && r.speed.value < q.speed.value && r.speed.value - posted <= 1.5;
+                ctx.violate("speed_le_posted", if tracking { "C03:overspeed_vs_posted:tracking_braking_curve" } else { "C03:overspeed_vs_posted" }, format!("[{what}] step {k}: speed {} > posted limit {posted} at front position {}", r.speed.value, r.offset.value), json!({"row": row_json(r), "prev_row": row_json(&rows[k - 1]), "braking_points_near": near, "case": case_json(&b)}));
             }
             if k + 1 < rows.len() && r.speed.value > rows[k + 1].speed_limit.value * (1.0 + 1e-12) + 1e-12 {
                 ctx.violate("speed_le_limit_in_force", "C03:overspeed_vs_limit_in_force", format!("[{what}] step {k}: speed {} > limit in force at its position {}", r.speed.value, rows[k + 1].speed_limit.value), json!({"row": row_json(r), "next_row": row_json(&rows[k + 1]), "case": case_json(&b)}));
